@@ -6,7 +6,7 @@ import os
 from .. import common, gen, lin, observe, probe
 from ..driver import CacheDriver, Mismatch
 from ..model import Ambiguous
-from ..sched import Recorder, Sched
+from ..sched import LateHandles, Recorder, Sched
 
 PROP = 'C06'
 LEVEL = 'exploration'
@@ -361,7 +361,7 @@ def block_schedule(dc, sc, res, rng, label):
     nsingle = rng.randrange(0, 2)
     nreaders = rng.randrange(1, 3)
     n = nwriters + nsingle + nreaders
-    caches = [setup if shared else dc.Cache(d, timeout=0) for _ in range(n)]
+    caches = LateHandles(rng, n, lambda: dc.Cache(d, timeout=0), shared=setup if shared else None, reopen=0.0)
     sch = Sched(rng, clock, strategy=rng.choice(['random', 'preempt', 'random', 'ops']),
                 preempt_points={rng.randrange(0, 150) for _ in range(3)})
     rec = Recorder(sch)
@@ -502,7 +502,7 @@ def block_schedule(dc, sc, res, rng, label):
     finally:
         probe.set_controller(None)
         obs.close()
-        for c in set(caches) | {setup}:
+        for c in set(caches.all()) | {setup}:
             try:
                 c.close()
             except Exception:      # noqa: BLE001
